@@ -234,6 +234,42 @@ def _scalar_default_texts(t: int, where: int, code: bool) -> bool:
     return result(ok, True)
 
 
+# ---------------------------------------------------------------- code-built list defaults, given as lists and as a bare item
+LIST_DEFAULTS = (("[Int]", [5], True), ("[Int]", 5, False), ("[[Int]]", [[5], []], True), ("[[Int]]", [5], False), ("[[Int]]", 5, False), ("[Color]", [1, "blue"], True), ("[Color]", 1, False),
+                 ("[In]", [{"f": 1}], True), ("[Int!]!", [5], True), ("[Int!]!", 5, False), ("[Int]", [], True), ("[Int]", [None, 5], True), ("[String]", ["a"], True), ("[String]", "a", False))
+
+
+def _list_default_items(i: int, where: int) -> bool:
+    """
+    pre: 0 <= i < len(LIST_DEFAULTS) and 0 <= where <= 1
+    post: _
+    """
+    (texpr, default, is_list), WH = pick(i, LIST_DEFAULTS), concrete_int(where, 0, 1)
+    if not is_list and known.c12_bare_item_for_list_default():
+        return result(True, False)
+    with untraced():
+        color = EnumType("Color", [EnumValue("RED", 1), EnumValue("BLUE", "blue")])
+        inp = InputObjectType("In", [InputField("f", Int)])
+        base = {"Int": Int, "String": String, "Color": color, "In": inp}
+
+        def ty(e):
+            if e.endswith("!"):
+                return NonNullType(ty(e[:-1]))
+            if e.startswith("["):
+                return ListType(ty(e[1:-1]))
+            return base[e]
+        if WH == 0:
+            q = ObjectType("Query", [Field("f", Int, args=[Argument("x", ty(texpr), default_value=default)])])
+            schema = Schema(q, types=[color, inp])
+        else:
+            holder = InputObjectType("Holder", [InputField("x", ty(texpr), default_value=default)])
+            schema = Schema(ObjectType("Query", [Field("f", Int, args=[Argument("h", holder)])]), types=[color, inp])
+        text = schema.to_string()
+        rebuilt = build_schema(text)
+        ok = rebuilt.to_string() == text
+    return result(ok, True)
+
+
 def fresh_text(name, oi):
     key = (name, oi)
     if key not in _FRESH:
@@ -339,6 +375,12 @@ def _solve_int_re(tier):
 
 
 CONDITIONS = [
+    Cond(
+        name="list_default_items", fn=_list_default_items, quick=60, thorough=60,
+        bound="code-built list-typed defaults ([Int], [[Int]], [Color], [In], [Int!]!, [String]) given as lists of the declared depth (and, as a listed known finding, as a bare item) on an argument and on an "
+              "input field: the rebuilt schema prints the same text",
+        symbolic={"i,where": "choice"}, assumptions=["known finding C12-bare-item-for-list-default excluded"], witness={"i": 0, "where": 0},
+    ),
     Cond(
         name="scalar_default_texts", fn=_scalar_default_texts, quick=60, thorough=60,
         bound="%d string values of a custom scalar that look more or less like numbers ('007', '1e5', ' 12', '1_000', 'inf', 'nan', '42.42', '-0.0', '1e400', ...) as default of an argument, a list item, "
